@@ -8,7 +8,20 @@ var stubPlugin = []string{"os/exec.Cmd -> simexec.Cmd (simulated process table)"
 	"plugin processes -> simulator tasks (scripted raw-pipe interpreter, or the real plugin.Main with a scripted generator)",
 	"sync.Mutex/WaitGroup/Pool -> simulated (scheduler-decided)", "goroutine scheduling -> seeded single-baton scheduler", "Go map iteration order -> seeded permutation (MapSeq)", "log.Fatalf -> exit of the simulated process"}
 
+var realWire = []string{"protocol/binary (Reader, StreamReader, StreamWriter, Writer, lazy lists, envelopes, responders, Protocol)", "wire", "protocol/stream", "envelope", "internal/envelope", "internal/multiplex", "regenerated code of the schema corpus (gen/internal/tests/thrift, plugin/api.thrift, verif/schemas)"}
+
+var stubWire = []string{"caller-supplied io.Reader / io.Seeker / io.ReaderAt / io.Writer -> simio (delivery schedule and faults are choices; stays inside the io contracts)", "sync.Pool -> simulated pool (reuse order, drops and New calls are choices; double-Put and write-after-Put detectors)", "Go map iteration order -> seeded permutation", "peer process -> simulator task over a simulated pipe (client/server runs)"}
+
 var specs = map[string]Spec{
+	"C03": {
+		Prop: "C03", Engine: "wire-world", Level: "exploration", Binary: "root",
+		Quick:    Tier{Count: 400000, BudgetS: 40},
+		Thorough: Tier{Count: 40000000, BudgetS: 900},
+		Rule: "one run = one (wire type, byte string) drawn from the seed (valid encodings of random values incl. >1MiB binaries at low rate, 1-3 format-aware mutations: bit/byte flips, type-byte swaps, length/count edits incl. -1 and 2^31-1, id edits, truncation, insert/delete/duplicate; trailing bytes; random strings; invalid requested types) decoded by the random-access reader over a full-delivery ReaderAt with every lazy container forced (baseline), then re-decoded/skipped under D seeded delivery schedules (6 quick, 12 thorough; every third one faulted): reader kind {random-access, harness decoder over stream.Reader primitives, Skip} x style {full, 1-byte, random chunks, stutter with zero-length reads, first-byte} x EOF-with-data x seekable x {truncation, I/O error at an offset}. " +
+			"Every run is non-trivial (the decoders ran); distinct = distinct choice lists.",
+		RealComp: realWire, StubComp: stubWire,
+		Assume: []string{"lazy containers are forced exactly once and closed, as the API requires", "nothing is required of Skip on a seekable reader that was cut short (seeking past the end is legal)", "call budget 1024*len+65536 reader calls stands for 'terminates'"},
+	},
 	"C17": {
 		Prop: "C17", Engine: "plugin-world", Level: "exploration", Binary: "root",
 		Quick:    Tier{Count: 6000, BudgetS: 45},
